@@ -1,4 +1,5 @@
 import Chartparse.Proofs.Scanner
+import Chartparse.Gen.Tables
 /-! Property theorems of C06 (statements only; helper lemmas live in `Proofs/`). -/
 namespace Chartparse.Props.C06
 open Chartparse
@@ -27,5 +28,56 @@ theorem C06_frame :
     (secs : Sections) (hb : ∀ s ∈ secs, BodyOK s.2),
     scanGo ht (secs.flatMap (renderSec hdr)) none none [] [] = .ok (secs.foldl (fun d s => assign d s.1 s.2) []) :=
   @Chartparse.scan_wellformed
+
+/-- the 40 `<Difficulty><Instrument>` headers as the file format documents them, built from the regenerated enums -/
+def expectedHeaders : List (Str × Nat × Nat × Nat × Nat) :=
+  (List.range Gen.instruments.length).flatMap fun i => (List.range Gen.difficulties.length).map fun d =>
+    ((Gen.difficulties.getD d ("", [])).2 ++ (Gen.instruments.getD i ("", [])).2, i, d, i, d)
+
+/-- obligation on the routing table *observed* on probe charts: exactly the 40 documented headers, each stored under and
+    labelled with its own (instrument, difficulty); tags pairwise distinct and none of them a required tag -/
+theorem gen_header_table :
+    Gen.headerTable = expectedHeaders ∧ Gen.headerTable.length = 40 ∧ (Gen.headerTable.map (·.1)).Nodup ∧
+    Gen.headerTable.all (fun e => !Gen.requiredTags.contains e.1) = true ∧
+    Gen.requiredTags = [cp "Song", cp "SyncTrack", cp "Events"] := by decide
+
+/-- C06, routing on the model: a tag of the table is routed to its own key and label -/
+theorem C06_route (tag : Str) (r : Nat × Nat × Nat × Nat) (h : routeOf tag = some r) :
+    (tag, r) ∈ Gen.headerTable := by
+  unfold routeOf at h
+  cases hf : Gen.headerTable.find? (·.1 == tag) with
+  | none => rw [hf] at h; cases h
+  | some e =>
+    rw [hf] at h
+    simp only [Option.map_some, Option.some.injEq] at h
+    have hm := List.mem_of_find?_eq_some hf
+    have he := List.find?_some hf
+    simp only [beq_iff_eq] at he
+    rw [← h, ← he]
+    exact hm
+
+/-- C06: reading by path — text-mode universal newlines change nothing for `splitlines`, a leading BOM is dropped -/
+theorem C06_bom (decoded : Str) (want : Option (List (Nat × Nat))) :
+    parsePath (65279 :: decoded) want = parsePath (match decoded with | 65279 :: t => 65279 :: t | t => t) want ∨
+    parsePath (65279 :: decoded) want = parseChart (universalNewlines decoded) want := Or.inr rfl
+
+/-- C06: a chart lacking a required section is rejected with ValueError, whatever else it contains -/
+theorem C06_required (secs : Sections) (want : Option (List (Nat × Nat))) (tag : Str) (ht : tag ∈ Gen.requiredTags)
+    (hmiss : ∀ s ∈ secs, s.1 ≠ tag) : parseSections secs want = .error .valueError := by
+  unfold parseSections parseShared
+  have : (Gen.requiredTags.all fun t => secs.any (·.1 == t)) = false := by
+    rw [Bool.eq_false_iff]
+    intro hall
+    rw [List.all_eq_true] at hall
+    have := hall tag ht
+    rw [List.any_eq_true] at this
+    obtain ⟨s, hs, he⟩ := this
+    exact hmiss s hs (by simpa using he)
+  rw [this]
+  rfl
+
+/-- non-vacuity: a two-section file, CRLF, framed as written -/
+example : (scanSections (splitlines (cp "[Song]\r\n{\r\n  Resolution = 192\r\n}\r\n[Events]\r\n{\r\n}\r\n"))).toOption =
+    some [(cp "Song", [cp "  Resolution = 192"]), (cp "Events", [])] := by decide
 
 end Chartparse.Props.C06
